@@ -151,6 +151,18 @@ fn data_cell(data: &Bytes) -> (CellMeta, Byte32) {
     (meta, h)
 }
 
+/// dep cell of a testdata file; the blake2b of the binary is computed once per process
+fn file_cell(name: &str) -> (CellMeta, Byte32) {
+    static CACHE: OnceLock<std::sync::Mutex<BTreeMap<String, (CellMeta, Byte32)>>> = OnceLock::new();
+    let m = CACHE.get_or_init(Default::default);
+    if let Some(c) = m.lock().unwrap().get(name) {
+        return c.clone();
+    }
+    let c = data_cell(&file(name));
+    m.lock().unwrap().insert(name.to_string(), c.clone());
+    c
+}
+
 fn hash_type(vm: u8) -> ScriptHashType {
     match vm {
         0 => ScriptHashType::Data,
@@ -182,7 +194,7 @@ struct Tb {
 
 impl Tb {
     fn dep(&mut self, name: &str) -> Byte32 {
-        let (c, h) = data_cell(&file(name));
+        let (c, h) = file_cell(name);
         self.deps.push(c);
         h
     }
@@ -421,9 +433,10 @@ pub fn gen_program(r: &mut Rng) -> Program {
         "spawn_dag" => (r.next_u64() >> 16, r.range(1, 15), r.range(1, 31)),
         "spawn_io_cycles" => (*r.pick(&[1u64, 64, 128, 500, 1152, 4000]), r.below(2), 0),
         "load_code_to_stack_then_reuse" => (r.below(4), 0, 0),
-        "infinite_loop" | "infinite_exec" | "spawn_exec_infinite" => {
+        "infinite_loop" | "spawn_exec_infinite" => {
             (*r.pick(&[30_000u64, 250_000, 1_200_000]), 0, 0)
         }
+        "infinite_exec" => (*r.pick(&[30_000u64, 250_000]), 0, 0),
         "spawn_out_of_cycles" | "spawn_out_of_cycles_wrap" => {
             (*r.pick(&[700_000u64, 2_000_000, 0xffffff]), 0, 0)
         }
@@ -461,7 +474,6 @@ pub fn gen_extras(r: &mut Rng, primary: &Program) -> Vec<Extra> {
             "type_id",
             "current_cycles_with_snapshot",
             "always_failure",
-            "exec_from_cell_data",
         ]);
         if name == "type_id" {
             if have_type_id {
@@ -471,9 +483,7 @@ pub fn gen_extras(r: &mut Rng, primary: &Program) -> Vec<Extra> {
         }
         let vm = match name {
             "spawn_cases" => 2,
-            "current_cycles" | "current_cycles_with_snapshot" | "exec_from_cell_data" => {
-                r.range(1, 2) as u8
-            }
+            "current_cycles" | "current_cycles_with_snapshot" => r.range(1, 2) as u8,
             "always_failure" => {
                 if r.chance(3, 4) {
                     continue; // keep failing extras rare
